@@ -183,6 +183,10 @@ CLASS_OF = {
 }
 TEXTS = [(CLASS_OF.get(variant, variant), text) for variant, text in TEXTS]
 NAME_TEXTS = [t for t in TEXTS if t[0] not in ('long',)]
+# values may span lines (names are single-line by the format): a line break at the end, in the middle, alone, doubled.
+# (LF only: the format has no escapes and every reader normalises CR / CR-LF to LF, so a carriage return is not representable)
+VALUE_TEXTS = TEXTS + [('line_break', 'concrete/wall01\n'), ('line_break', 'a\nb'), ('line_break', '\n'), ('line_break', 'x\n\n'), ('line_break', 'two words\n'),
+                       ('line_break', '\nlead')]
 
 FEATURES: dict = {
     'shader': [('plain', 'LightmappedGeneric'), ('len1', 'a'), ('patch', 'Patch'), ('dots', 'SDK_Shader.v1-2'),
@@ -191,20 +195,20 @@ FEATURES: dict = {
     'n_params': [('three', 3), ('none', 0), ('one', 1), ('two', 2)],
     'pname': [('plain', '$surfaceprop'), ('upper', '$SurfaceProp'), ('no_sigil', 'surfaceprop'),
               ('flag_prefix', '!srgb?$detail'), ('index', '$color2[1]')] + NAME_TEXTS,
-    'pvalue': [('plain', 'dirt'), ('number', '.5'), ('var', '$other')] + TEXTS,
+    'pvalue': [('plain', 'dirt'), ('number', '.5'), ('var', '$other')] + VALUE_TEXTS,
     'n_blocks': [('one', 1), ('none', 0), ('two', 2), ('three_same_name', 3)],
     'bname': [('plain', '>=dx90_20b'), ('insert', 'insert'), ('case', 'LightmappedGeneric_DX8'), ('space', 'a b'),
               ('lead_special', '/blk'), ('escapable', 'a\\b'), ('escapable', "it's"), ('lead_special', '#blk')],
     'bshape': [('leaf_and_nested', 'leaf_and_nested'), ('leaf_only', 'leaf_only'), ('empty', 'empty'),
                ('deep', 'deep'), ('nested_empty', 'nested_empty'), ('dup_keys', 'dup_keys')],
     'bleaf_name': [('plain', '$bumpmap'), ('upper', '$BumpMap')] + NAME_TEXTS,
-    'bleaf_value': [('plain', 'tex/normal')] + TEXTS,
+    'bleaf_value': [('plain', 'tex/normal')] + VALUE_TEXTS,
     'n_proxies': [('one', 1), ('none', 0), ('two', 2), ('three_same_name', 3)],
     'pxname': [('plain', 'Sine'), ('space', 'My Proxy'), ('proxies', 'Proxies'), ('case', 'textureSCROLL'),
                ('escapable', 'a\\b'), ('escapable', "it's")],
     'pxshape': [('leaves', 'leaves'), ('empty', 'empty'), ('nested', 'nested'), ('single', 'single')],
     'pxleaf_name': [('plain', 'sinemin'), ('upper', 'SineMin')] + NAME_TEXTS,
-    'pxleaf_value': [('plain', '0')] + TEXTS,
+    'pxleaf_value': [('plain', '0')] + VALUE_TEXTS,
 }
 
 
